@@ -124,6 +124,9 @@ impl Expression {
             Self::LongLiteral(n) => {
                 if n <= MIN_LONG {
                     Self::DoubleLiteral(-n as f64)
+                } else if -n >= MIN_INTEGER as i64 {
+                    // -32768 fits in an integer, even though 32768 does not
+                    Self::IntegerLiteral(-n as i32)
                 } else {
                     Self::LongLiteral(-n)
                 }
